@@ -295,7 +295,11 @@ fn prepare_response(
     match head.status {
         http::StatusCode::NO_CONTENT
         | http::StatusCode::CONTINUE
-        | http::StatusCode::PROCESSING => *size = BodySize::None,
+        | http::StatusCode::PROCESSING => {
+            // no body and no length headers, whatever the body type or the handler said
+            skip_len = true;
+            *size = BodySize::None;
+        }
 
         // a 304 never has a body either; like HTTP/1, keep a manually set content-length
         http::StatusCode::NOT_MODIFIED => {
